@@ -661,3 +661,12 @@ PROPS["C25"] = {
                                             "expressions outside the codec (constructor type invariants, paho NewControlPacket)",
                                             "nil-pointer dereferences are not recognisable syntactically and are covered only by the runs"],
 }
+
+PROPS["C06"] = {
+    "theorems": ["C06_gateway_refuted", "C06_client_refuted"],
+    "drivers": ["drv_gw.test", "drv_client.test"],
+    "units": [Unit("drv_gw", unit_gw), Unit("drv_client", unit_client)],
+    "mismatch_kinds": [r"SN:(Puback|Suback|Pubrec|Pubcomp|Pubrel)", r"MQ:(PUBACK|PUBREC|PUBCOMP)", r"PANIC", r"MISSING-"],
+    "rule": GW_RULE + " (broker message IDs are drawn from the live client exchanges a quarter of the time; two corpus witnesses run first); " + CL_RULE,
+    "assumptions": GW_ASSUME + CL_ASSUME,
+}
